@@ -732,6 +732,42 @@ WriteFrame(type, pver, enc, m) ==
     ELSE "ok"
 
 -----------------------------------------------------------------------------
+(* BIP324 (v2 transport) framing: the plaintext of a packet is the message   *)
+(* type followed by the payload.  The type is ONE byte, the short id of the  *)
+(* table below (ids are the positions, 1-based), or the byte 0x00 followed   *)
+(* by the 12-byte zero-padded command.  A sender uses the short id when the  *)
+(* command has one.                                                          *)
+
+V2ShortIds == <<"addr", "block", "blocktxn", "cmpctblock", "feefilter", "filteradd", "filterclear",
+                "filterload", "getblocks", "getblocktxn", "getdata", "getheaders", "headers", "inv",
+                "mempool", "merkleblock", "notfound", "ping", "pong", "sendcmpct", "tx",
+                "getcfilters", "cfilter", "getcfheaders", "cfheaders", "getcfcheckpt", "cfcheckpt", "addrv2">>
+V2IdOf(type) == IF \E i \in 1..Len(V2ShortIds) : V2ShortIds[i] = type
+                THEN CHOOSE i \in 1..Len(V2ShortIds) : V2ShortIds[i] = type ELSE 0
+\* the command a first byte stands for ("" : none)
+V2NameOf(id) == IF id \in 1..Len(V2ShortIds) THEN V2ShortIds[id] ELSE ""
+V2LongHead == <<TConst("v2.long", <<0>>), TBytes("command", 12)>>
+V2Head(type) == IF V2IdOf(type) > 0 THEN <<TConst("v2.id", <<V2IdOf(type)>>)>> ELSE V2LongHead
+
+\* fr = [kind "empty" | "short" | "long",
+\*       id    the first byte of a short form,
+\*       head  bytes of the 13-byte long head that are there,
+\*       cmd   long form: "ok" the command of the type | anything else: not a command,
+\*       len   bytes after the head, pay those bytes as tokens]
+\* type is the message the head names when it names one.
+ReadV2(type, pver, enc, fr) ==
+    IF fr.kind = "empty" THEN "malformed"
+    ELSE IF fr.kind = "long" /\ fr.head < 13 THEN "malformed"
+    ELSE IF fr.kind = "long" /\ fr.cmd # "ok" THEN "unknown"
+    ELSE IF fr.kind = "short" /\ V2NameOf(fr.id) # type THEN "unknown"
+    ELSE IF fr.len > MaxProtocolMessageLength THEN "malformed"
+    ELSE IF fr.len > MaxPayload(type, pver) THEN "malformed"
+    ELSE LET d == Dec(type, pver, enc, fr.pay)
+         IN  IF d.res # "ok" THEN d.res
+             ELSE IF More(fr.pay, d) THEN "malformed"
+             ELSE "ok"
+
+-----------------------------------------------------------------------------
 (* structured mutations of a token string                                   *)
 
 \* proper prefixes: every token boundary, one byte into and one byte before the end of
